@@ -485,11 +485,35 @@ impl<'a> G<'a> {
     fn process_template(&mut self) -> Vec<String> {
         self.feat("process");
         let a = self.int(1);
-        match self.r.below(5) {
+        let k = self.lit();
+        match self.r.below(9) {
+            5 => vec![
+                // filter function with a body: skips messages until the wanted one
+                format!("me = &., {a} me, {k} me, 42 me"),
+                "! [#'int { =42 => Ok }]".into(),
+            ],
+            6 => vec![
+                // filter that calls a helper and binds locals; then the remaining messages
+                "big = #'int { [~, 10] __integer_compare__ =1 }".into(),
+                format!("me = &., 3 me, {a} me, 50 me"),
+                "! [#'int { =m, n = [m, 1] __integer_add__, n big }]".into(),
+                "!#'int".into(),
+            ],
+            7 => vec![
+                // child selects with a filter, parent sends several messages and awaits
+                "ch = @#{ ! [#'int { =v [v, 5] __integer_compare__ =1 => Ok }] }".into(),
+                format!("1 ch, {a} ch, 9 ch"),
+                "!ch".into(),
+            ],
+            8 => vec![
+                // two sources: filter receive and a time-out
+                format!("me = &., {k} me"),
+                "! [#'int { =1000 => Ok }, 5]".into(),
+            ],
             0 => vec![format!("pr = @#'int {{ [~, 1] __integer_add__ }}"), format!("{a} pr"), "!pr".into()],
             1 => vec!["echo = #{ !#'int }".into(), "pe = @echo".into(), format!("{a} pe"), "!pe".into()],
             2 => vec![format!("me = &., {a} me, !#'int")],
-            3 => vec![format!("w = @{{ {a} }}"), "![w, 50]".into()],
+            3 => vec![format!("w = @{{ {a} }}"), "! [w, 50]".into()],
             _ => vec![
                 "srv = #{ !#'int =v, [v, 1] __integer_add__ }".into(),
                 "ps = @srv".into(),
